@@ -100,6 +100,14 @@ def h_hydrogens(V, smi):
     V.observe('text', text)
 
 
+def normal(m):
+    c = m.copy()
+    if any(b.order == 4 for *_, b in c.bonds()):
+        c.kekule()
+    c.thiele()
+    return str(c)
+
+
 def h_normalise(V, smi, op):
     import chython
     src = chython.smiles(smi)
@@ -146,7 +154,9 @@ def h_normalise(V, smi, op):
     else:
         V.prove(int(m) == ch and total_h(m) == hh, 'net charge and hydrogen count conserved', dict(info, got=str(m)))
     V.prove(m.check_valence() == [], 'no valence error', dict(info, got=str(m)))
-    V.prove(str(m) == str(ref), 'result does not depend on the input order', dict(info, got=str(m), want=str(ref)))
+    # compared "once aromaticity is normalised" (C01): the operations leave Kekule rings as drawn, and the canonical string
+    # of a Kekule ring is that of one particular placement of its double bonds
+    V.prove(normal(m) == normal(ref), 'result does not depend on the input order', dict(info, got=str(m), want=str(ref)))
     s1 = str(m)
     run(m)
     V.prove(str(m) == s1, 'operation is idempotent', dict(info, got=str(m), want=s1))
